@@ -28,6 +28,18 @@ def real(ctx, what, replay, f, *a, **k):
         ctx.violation(None, "%s raises %s" % (what, type(e).__name__), dict(replay, error=str(e)[:300], traceback=traceback.format_exc()[-1200:])); raise ImplRaised()
 
 
+def window_is_saved():
+    """does the code under test keep the reference window of the reads in the gene header of the save files (fixes/C18_serialize_read_region.diff)?
+       probed on the real code: a GeneInfo whose window differs from its gene region, through serialize / deserialize"""
+    from src.gene_info import GeneInfo
+    try:
+        g = GeneInfo.__new__(GeneInfo); g.delta = 0; g.gene_db_list = []; g.chr_id = "c"; g.start = 100; g.end = 200; g.all_read_region_start = 50; g.all_read_region_end = 300
+        b = io.BytesIO(); g.serialize(b); b.seek(0); g2 = GeneInfo.deserialize(b, None)
+        return (g2.all_read_region_start, g2.all_read_region_end) == (50, 300) and b.tell() == len(b.getvalue())
+    except Exception:
+        return False
+
+
 def cflag(v):
     return {"Unspliced": "(Some Unspliced)", "True": "(Some (Flag true))", "False": "(Some (Flag false))", None: "None"}[v]
 def cquery(q): return "(%s, %s)" % (cstrand(q[0]), cintrons(q[1]))
@@ -83,21 +95,67 @@ def corr_histories(ctx, quick):
         qs = [(rnd.choice("++--."), tuple(sorted(rnd.sample(I, rnd.randint(1, 3))))) for _k in range(rnd.randint(1, 12))]
         if all(inside(ws, we, i) for q in qs for i in q[1]): one(text, ws, we, qs, "random")
     n_in = len(cases)
-    # corpus + random: the stored window does not reach the queried introns (what stage 2 does for reads that leave the gene cluster)
-    text, I = three_intron_text(rnd, ("+", "+", "-"), 0)
-    one(text, 25, 72, [("+", (I[0],))], "outside")                     # GT..AG intron left of the window: reported non-canonical
-    one(text, 1, 40, [("-", (I[2],))], "outside")
-    for _ in range(150 if quick else 1000):
-        kinds = [rnd.choice(["+", "-", "gc", "n"]) for _k in range(3)]
-        text, I = three_intron_text(rnd, kinds, 0)
-        ws, we = rnd.choice([(25, 50), (46, 72), (1, 9), (23, 30), (62, 72)])
-        out = [i for i in I if not inside(ws, we, i)]
-        qs = [(rnd.choice("+-"), (rnd.choice(out),)) for _k in range(rnd.randint(1, 4))]
-        one(text, ws, we, qs, "outside")
-    ctx.rule("check_sites_are_canonical on fake gene_info objects: every history of <= %d queries over 3 introns x {+,-} (quick) plus two-intron and '.'-strand queries (thorough) on 4 reference texts (canonical on +, on -, on neither, GC-AG / AT-AC, lower case), random histories of up to 12 multi-intron queries with windows that contain all introns; separate stream with windows that do not contain the queried introns (known finding); non-trivial = an intron is asked on both strands" % maxlen)
+    ctx.rule("check_sites_are_canonical on fake gene_info objects: every history of <= %d queries over 3 introns x {+,-} (quick) plus two-intron and '.'-strand queries (thorough) on 4 reference texts (canonical on +, on -, on neither, GC-AG / AT-AC, lower case), random histories of up to 12 multi-intron queries with windows that contain all introns; non-trivial = an intron is asked on both strands" % maxlen)
     m, v = ctx.corr("check_sites_are_canonical-histories", pre, typed(cases), shard=300,
                     nontrivial=lambda o: len(set((i, s) for s, l in o["queries(strand, introns)"] for i in l)) > len(set(i for s, l in o["queries(strand, introns)"] for i in l)))
-    ctx.corr_report("check_sites_are_canonical-histories", m, v, keyfn=lambda o: KEY_WINDOW if (o["stream"] == "outside" and o["all_outside"]) else None)
+    ctx.corr_report("check_sites_are_canonical-histories", m, v, keyfn=lambda o: None)
+
+
+def corr_reloaded(ctx, quick, saved):
+    """the window a GeneInfo holds after the save files: REAL GeneInfo with the window of stage 1 (set_reference_sequence on the read region), written by the
+       REAL TmpFileAssignmentPrinter, read back by the REAL NormalTmpFileAssignmentLoader with the chromosome; then queries on the reloaded object"""
+    from src.assignment_io import IOSupport, TmpFileAssignmentPrinter, NormalTmpFileAssignmentLoader
+    from src.gene_info import GeneInfo, FeatureProfiles
+    import gc
+    rnd = ctx.rnd; io_ = IOSupport(types.SimpleNamespace())
+    pre = PRE.replace("CanonSpec.", "CanonSpec CanonReload.") + "Definition RR := %s.\n" % cbool(saved) + """Definition tc (c:(str * (Z * Z * Z * Z) * list (strand * list intron)) * list bool) := c.
+Definition wnd (c:(str * (Z * Z * Z * Z) * list (strand * list intron)) * list bool) : window :=
+  let '(text, (gs, ge, rs, re), qs) := fst c in reloaded_window RR text {| sv_gene_start := gs; sv_gene_end := ge; sv_reads_start := rs; sv_reads_end := re |}.
+Definition check (c:(str * (Z * Z * Z * Z) * list (strand * list intron)) * list bool) : bool :=
+  let '(text, g, qs) := fst c in bools_eqb (snd (run_queries (wnd c) [] qs)) (snd c).
+(* every answer is the conjunction of the declarative test on the chromosome itself: no restriction to a window (C18_flag_spec_reloaded) *)
+Definition prop (c:(str * (Z * Z * Z * Z) * list (strand * list intron)) * list bool) : bool :=
+  let '(text, g, qs) := fst c in bools_eqb (map (fun q => forallb (canonical_ref (ref_of text) (fst q)) (snd q)) qs) (snd c).
+"""
+    tmp = tempfile.mkdtemp(prefix="iqv_c18_reload_"); cases = []
+    try:
+        def one(text, gene, reads, qs, k):
+            rp = {"reference_text": text, "gene_region": gene, "read_region": reads, "queries(strand, introns)": [(q[0], list(q[1])) for q in qs]}
+            try:
+                g = GeneInfo.__new__(GeneInfo); g.delta = 0; g.gene_db_list = []; g.chr_id = "chrA"; g.start, g.end = gene
+                g.all_read_region_start, g.all_read_region_end = gene; g.reference_region = None; g.canonical_sites = {}
+                real(ctx, "GeneInfo.set_reference_sequence", rp, g.set_reference_sequence, reads[0], reads[1], text)       # stage 1
+                path = os.path.join(tmp, "g%d.save" % k)
+                def write():
+                    pr = TmpFileAssignmentPrinter(path, None); pr.add_gene_info(g); del pr; gc.collect()
+                real(ctx, "TmpFileAssignmentPrinter.add_gene_info", rp, write)
+                def load():
+                    ld = NormalTmpFileAssignmentLoader(path, None, text); obj = ld.get_object(); del ld; gc.collect(); return obj
+                g2 = real(ctx, "NormalTmpFileAssignmentLoader.get_object", rp, load)                                       # stage 2
+                ans = [real(ctx, "check_sites_are_canonical on a reloaded GeneInfo", dict(rp, failing_query=(q[0], list(q[1]))), io_.check_sites_are_canonical, list(q[1]), g2, q[0]) for q in qs]
+            except ImplRaised: return
+            held = (g2.all_read_region_start, g2.all_read_region_start + len(g2.reference_region or "") - 1)
+            term = "((%s, (%s, %s, %s, %s), %s), %s)" % (cs(text), cz(gene[0]), cz(gene[1]), cz(reads[0]), cz(reads[1]), clist(qs, cquery), clist(ans, cbool))
+            cases.append((term, dict(rp, impl=ans, window_held_after_reload=held, some_outside_gene_region=any(not inside(gene[0], gene[1], i) for q in qs for i in q[1]))))
+        # corpus: the GT..AG intron left of the genes, a CT..AC intron right of them
+        text, I = three_intron_text(rnd, ("+", "+", "-"), 0)
+        one(text, (25, 50), (3, 70), [("+", (I[0],))], 0)
+        one(text, (25, 40), (3, 70), [("-", (I[2],))], 1)
+        for k in range(2, 250 if quick else 1500):
+            kinds = [rnd.choice(["+", "-", "gc", "at", "rgc", "rat", "n", "half"]) for _k in range(3)]
+            text, I = three_intron_text(rnd, kinds, rnd.choice([0, 0, 0.3, 1.0]))
+            reads = (rnd.choice([1, 3, 9]), rnd.choice([len(text), 70, 64]))                    # the reads span all three introns
+            gene = rnd.choice([(25, 50), (46, 72), (1, 9), (23, 30), (62, 72), (5, 66), reads])  # the genes lie anywhere inside / across
+            qs = [(rnd.choice("++--."), tuple(sorted(rnd.sample(I, rnd.randint(1, 3))))) for _k in range(rnd.randint(1, 6))]
+            one(text, gene, reads, qs, k)
+    finally:
+        shutil.rmtree(tmp, ignore_errors=True)
+    ctx.rule("reloaded GeneInfo: REAL GeneInfo objects holding the window of the read region (set_reference_sequence), written by the REAL TmpFileAssignmentPrinter and read back by the REAL "
+             "NormalTmpFileAssignmentLoader with the chromosome, then histories of check_sites_are_canonical queries for introns inside the read region, the gene region lying anywhere; the specification demands "
+             "the chromosome's own answer for every one of them (code under test: %s); non-trivial = a queried intron lies outside the gene region" % ("read region stored in the gene header" if saved else "gene region only in the gene header - known finding"))
+    m, v = ctx.corr("reloaded-gene_info-histories", pre, typed(cases), shard=100, nontrivial=lambda o: o["some_outside_gene_region"])
+    # the known finding exists only where the header does not carry the read region; with the repaired layout every deviation is new
+    ctx.corr_report("reloaded-gene_info-histories", m, v, keyfn=lambda o: KEY_WINDOW if (not saved and o["some_outside_gene_region"]) else None)
 
 
 def corr_flags(ctx, quick):
@@ -287,7 +345,7 @@ def canon_records(fasta, rows):
         out.append((term, must, what))
     return out
 
-def pipeline(ctx, quick):
+def pipeline(ctx, quick, saved):
     import pipeline as P, gen_data
     from concurrent.futures import ThreadPoolExecutor
     root = P.scratch("iqv_c18_")
@@ -383,7 +441,7 @@ def pipeline(ctx, quick):
                         for (ws, we) in windows.get((o["chr"], i), ()):
                             if not (ws <= i[0] and i[1] <= we):
                                 o["window_seen_by_the_check"] = (ws, we); o["intron_outside"] = i
-                                return KEY_WINDOW
+                                return None if saved else KEY_WINDOW      # with the read region stored in the gene header no look-up may leave the window
                     return None
                 ctx.corr_report("pipeline-canon_ok/%s" % job["name"], m_, v_, keyfn=key, what="canon_ok: printed Canonical value differs from the recomputation on the FASTA")
             both = sum(1 for k, ws in windows.items() if len(ws) > 0)
@@ -400,13 +458,17 @@ def run(ctx):
     ctx.prepare("C18.v")
     ctx.rule("regenerated from the source on every run (tools/translate_extra.py -> coq/gen/Extra.v; bridged to the model by C18_site_sets_are_the_sources): CANONICAL_FWD_SITES / CANONICAL_REV_SITES of src/common.py as lists of pairs of byte lists, in the order of the set literals")
     guarded(ctx, "canonical-site-sets", corr_sites, ctx)
+    saved = window_is_saved()
+    ctx.notes.append("gene header of the code under test: %s" % ("carries the reference window of the reads (fixes/C18_serialize_read_region.diff): C18_flag_spec_reloaded applies, no known finding about the window" if saved else
+                                                                  "gene region only (before fixes/C18_serialize_read_region.diff): known finding C18:intron-outside-window"))
     guarded(ctx, "check_sites_are_canonical-histories", corr_histories, ctx, quick)
+    guarded(ctx, "reloaded-gene_info-histories", corr_reloaded, ctx, quick, saved)
     guarded(ctx, "canonical-flags", corr_flags, ctx, quick)
     guarded(ctx, "common-strand-functions", corr_common, ctx, quick)
     guarded(ctx, "strand-detector-histories", corr_detector, ctx, quick)
     guarded(ctx, "construct_fl_isoforms-strands", corr_constructor, ctx, quick)
     ctx.exhaustive = False
-    guarded(ctx, "pipeline", pipeline, ctx, quick)
+    guarded(ctx, "pipeline", pipeline, ctx, quick, saved)
     ctx.assume.append("pyfaidx: record[a:b] for 0 <= a < b <= len is the substring (out-of-range slices of real records are not exercised at unit level)")
     ctx.assume.append("the harness' FASTA / TSV / GTF readers and its extraction of the two dinucleotides of every intron; harness/props/c18_hook.py only logs calls")
     ctx.assume.append("the reference is ASCII (str.upper on other alphabets is not modelled)")
